@@ -23,7 +23,7 @@ ASSUMPTIONS = [
 TOTALS = ["eager", "lazy", "reflect", "normalize", "sequential", "moment_matching"]
 ALPHABET = TOTALS + ["memoize", "memoize_shared", "Memoize_lazy", "Memoize_user", "user", "user2", "tape", "tape_shared", "montecarlo", "montecarlo_shared", "argmax_approximate", "mean_approximate"]
 QUICK_ALPHABET = ["eager", "lazy", "normalize", "sequential", "memoize", "memoize_shared", "Memoize_lazy", "Memoize_user", "user", "tape", "tape_shared", "montecarlo_shared", "reflect"]
-WORKS = ["name_independence", "subs", "reduce", "optimizer", "reinterpret", "adjoint", "einsum", "inner_memoize", "sample", "lambda", "user_term", "mc_integrate", "affine", "compile", "sum_product", "gaussian"]
+WORKS = ["recipes", "forward_backward", "approximate", "name_independence", "subs", "reduce", "optimizer", "reinterpret", "adjoint", "einsum", "inner_memoize", "sample", "lambda", "user_term", "mc_integrate", "affine", "compile", "sum_product", "gaussian"]
 EXC_TYPES = ["MemoryError", "RecursionError", "FloatingPointError", "NotImplementedError", "ValueError", "KeyboardInterrupt", "CancelledError"]
 
 ###############################################################################
@@ -524,6 +524,21 @@ class Run:
                     "inside apply_optimizer/einsum a user interpretation named %r was consulted %d times, its twin named %r %d times (same rules, same work)"
                     % (env.twins[0].__name__, counts[0], env.twins[1].__name__, counts[1]),
                 )
+        elif name == "recipes":
+            from funsor.recipes import forward_filter_backward_rsample
+
+            g = f.testing.random_gaussian(f.testing.OrderedDict(i=f.Bint[2], gx=f.Real, gy=f.Reals[2]))
+            factors = {"gx": g, "w": x(j=0)}
+            z = forward_filter_backward_rsample(factors, frozenset(["gx", "gy", "i"]), frozenset(["i"]), f.testing.OrderedDict(p=f.Bint[2]))
+        elif name == "forward_backward":
+            with f.interpretations.lazy:
+                e = (x * y).reduce(ops.add, frozenset(["i", "j", "k"]))
+            z = f.adjoint.forward_backward(ops.add, ops.mul, e)
+        elif name == "approximate":
+            lx = x - x.reduce(ops.logaddexp, "j")
+            z = lx.approximate(ops.logaddexp, lx, "j")
+            with f.approximations.argmax_approximate:
+                z = lx.approximate(ops.logaddexp, lx, "j")
         elif name == "reinterpret":
             with f.interpretations.lazy:
                 e = ((x * y).reduce(ops.add, "j") + 1.0)(i=1)
